@@ -26,6 +26,7 @@ func C16(run *core.Run) {
 	}
 	syncCheck(run, 4, 15, 2, every, syncOpts{})
 	stalePooledScenario(run)
+	staleFrontierScenario(run)
 	run.Finish()
 }
 
@@ -131,5 +132,91 @@ func stalePooledScenario(run *core.Run) {
 				run.Report("C16:adopts-momentum-confirming-stale-pooled-block-"+variant, fmt.Sprintf("the node pooled a block that %s, adopted the longer branch, and then adopted a momentum confirming that block although the block fails verification on the adopted branch (InsertChain error: %v)", variant, err), rep)
 			}
 		}()
+	}
+}
+
+// staleFrontierScenario: a side chain is delivered while another inserter holds the insert lock and extends the node's chain
+// past the side chain's tail. The adoption rule is evaluated when the delivery takes effect, i.e. against the frontier it finds
+// once it holds the lock: the side chain is then not strictly longer and is refused (Sync.tla's AdoptionRule; the gate is the
+// node's own insert lock, taken by the lab).
+func staleFrontierScenario(run *core.Run) {
+	node.Clock.Set(time.Unix(1000000000, 0))
+	rep := map[string]interface{}{"kind": "stale-frontier"}
+	p, err := node.New("stale-frontier-p", node.Options{Producer: true})
+	core.Must(err)
+	defer p.Stop()
+	core.Must(p.ProduceN(7)) // heights 2..8
+	base, err := p.Detailed(2, 8)
+	core.Must(err)
+	q, err := node.New("stale-frontier-q", node.Options{Producer: true})
+	core.Must(err)
+	defer q.Stop()
+	_, err = q.InsertChain(wireAll(base))
+	core.Must(err)
+	core.Must(p.ProduceN(6)) // the node's chain A: 9..14
+	a, err := p.Detailed(9, 14)
+	core.Must(err)
+	_, err = q.Submit(&nom.AccountBlock{BlockType: nom.BlockTypeUserSend, Address: g.User2.Address, ToAddress: g.User3.Address, TokenStandard: types.ZnnTokenStandard, Amount: big.NewInt(21)}, g.User2)
+	core.Must(err)
+	core.Must(q.Produce(1))
+	core.Must(q.ProduceN(3)) // the side chain S: 9'..12'
+	s, err := q.Detailed(9, 12)
+	core.Must(err)
+	f, err := node.New("stale-frontier-f", node.Options{})
+	core.Must(err)
+	defer f.Stop()
+	node.Clock.Set(time.Unix(1000000000, 0).Add(24 * time.Hour))
+	if _, err := f.InsertChain(wireAll(append(append([]*nom.DetailedMomentum{}, base...), a[:2]...))); err != nil { // the node is at height 10
+		core.Fatal("stale-frontier follower: %v", err)
+	}
+	gate := f.Chain.AcquireInsert("lab gate")
+	type result struct {
+		idx int
+		err error
+	}
+	done := make(chan result, 1)
+	go func() {
+		idx, err := f.InsertChain(wireAll(s)) // longer than the node's chain now (12 > 10)
+		done <- result{idx, err}
+	}()
+	time.Sleep(400 * time.Millisecond)
+	// the other inserter extends the chain to 14 under the lock (the inner loop of InsertChain with the same calls)
+	for _, dm := range wireAll(a[2:]) {
+		for _, blk := range dm.AccountBlocks {
+			if blk.BlockType == nom.BlockTypeContractSend || f.Chain.GetPatch(blk.Address, blk.Identifier()) != nil {
+				continue
+			}
+			tx, err := f.Sup.ApplyBlock(blk)
+			if err != nil {
+				gate.Unlock()
+				core.Fatal("stale-frontier: applying a block of the extension: %v", err)
+			}
+			if err := f.Chain.ForceAddAccountBlockTransaction(gate, tx); err != nil {
+				gate.Unlock()
+				core.Fatal("stale-frontier: %v", err)
+			}
+		}
+		mtx, err := f.Sup.ApplyMomentum(dm)
+		if err != nil {
+			gate.Unlock()
+			core.Fatal("stale-frontier: applying a momentum of the extension: %v", err)
+		}
+		if err := f.Chain.AddMomentumTransaction(gate, mtx); err != nil {
+			gate.Unlock()
+			core.Fatal("stale-frontier: %v", err)
+		}
+	}
+	gate.Unlock()
+	var r result
+	select {
+	case r = <-done:
+	case <-time.After(30 * time.Second):
+		core.Fatal("stale-frontier: the delivery does not return")
+	}
+	run.Traces++
+	run.Count("stale_frontier_scenarios", 1)
+	fr := f.Frontier()
+	if fr.Hash != a[len(a)-1].Momentum.Hash || r.err == nil {
+		run.Report("C16:adopts-side-chain-that-is-not-longer-when-it-takes-effect", fmt.Sprintf("a side chain ending at height 12 was delivered while another inserter extended the node's chain from 10 to 14: the delivery returned (%d, %v) and the node's frontier is %v at height %d - it left a chain of 14 for one of 12", r.idx, r.err, fr.Hash, fr.Height), rep)
 	}
 }
